@@ -349,6 +349,9 @@ type c10Env struct {
 	hook3OK bool       // yield point drt-guard-passed present
 	// part "fault" only: a real kernel hash map is handed to the tracker (nil in part main: no syscall)
 	kmap *ebpf.Map
+	// part "seam" only: wraps the production option closures with scheduling seams (c10_seam_verif_test.go);
+	// the wrappers call the production closure unchanged and only decide WHEN the parked worker runs
+	wrapOpt func(opt *DnsControllerOption)
 }
 
 type c10World struct {
@@ -416,6 +419,9 @@ func (w *c10World) newGeneration(prog, cfg int, pendingCache map[string]*DnsCach
 	opt.OptimisticCacheTtl = c10Cfgs[cfg].OptimisticCacheTtl
 	opt.MaxCacheSize = c10Cfgs[cfg].MaxCacheSize
 	opt.IpVersionPrefer = 0
+	if env.wrapOpt != nil {
+		env.wrapOpt(opt)
+	}
 	ctrl, err := NewDnsController(env.routing, opt)
 	if err != nil {
 		cancel()
